@@ -310,6 +310,24 @@ func routeEvents(c *Ctx, idx *int) {
 			}
 		}
 	}
+	// a long list grown by an ellipsis that has items behind it (which are not repeated)
+	for _, tc := range [][2]int{{63, 300000}, {1, 100000}, {200, 70000}} {
+		*idx++
+		if !c.want(*idx) || c.Arg == "flat" {
+			continue
+		}
+		args := []interface{}{ast.NewUintNode(1, 0), "..."}
+		for k := 0; k < tc[0]; k++ {
+			args = append(args, ast.NewUintNode(1, k%256))
+		}
+		t := ast.NewListNode(ast.NewListNode(args...), ast.NewBooleanNode(true))
+		var enc []byte
+		refused, _ := try(func() { enc = t.FillVariables(map[string]interface{}{"...": tc[1]}).ToBytes() })
+		ev := J{"ev": "bigroute", "route": "ellipsis", "lo": 0, "hi": 0, "n": tc[1] + 1 + tc[0], "via": "list", "built": !refused, "enclen": len(enc), "head": []int{}}
+		c.emit(*idx, ev)
+		c.count("big.route")
+		runtime.GC()
+	}
 	if c.Tier != "thorough" {
 		return
 	}
